@@ -14,7 +14,7 @@ import traceback
 from harness import tlc, replay, corpus, yamlread, pyref
 from harness.export import render_scenario_tla, cs_from_scenario, numeric_ok
 
-REPLAY_DIR = os.path.join(os.path.dirname(os.path.dirname(os.path.abspath(__file__))), "evidence", "replays")
+REPLAY_DIR = os.path.join(os.environ.get("VERIF_EVIDENCE", os.path.join(os.path.dirname(os.path.dirname(os.path.abspath(__file__))), "evidence")), "replays")
 
 
 def load_source(src, workdir):
@@ -50,7 +50,7 @@ def load_source(src, workdir):
 
 
 def drive_random(cs, scn, rec, seed, nsteps, modes, genstep_frac=0.3, reset_frac=0.01, bias=0.7, lockstep=False,
-                 extras=True, decode_limit=400):
+                 extras=True, decode_limit=400, readable=True):
     """seeded random / discovery-biased driver over real step() calls; with lockstep every environment takes
     the same abstract action with the same draw (one group per step)"""
     rng = random.Random(seed)
@@ -122,8 +122,9 @@ def drive_random(cs, scn, rec, seed, nsteps, modes, genstep_frac=0.3, reset_frac
         if extras and rng.random() < 0.02:
             if flat_envs:
                 rec.mask(flat_envs[0])
-            rec.readable_state(e, cs)
-            rec.readable_obs(e, cs, env.last_obs.numpy_flat() if env.flat_obs else env.last_obs.numpy())
+            if readable:
+                rec.readable_state(e, cs)
+                rec.readable_obs(e, cs, env.last_obs.numpy_flat() if env.flat_obs else env.last_obs.numpy())
         if rng.random() < reset_frac or (ev.get("ev") == "step" and (ev["term"] and rng.random() < 0.5)):
             rec.reset(e)
     return dict(steps=nsteps)
@@ -146,7 +147,7 @@ def run_job(job):
                machinery=None, counts={}, name=str(job.get("src")))
     wd = tlc.scratch_dir()
     try:
-        sys.path[:0] = [p for p in ("/repo",) if p not in sys.path]
+        sys.path[:0] = [p for p in (corpus.REPO,) if p not in sys.path]
         from harness.rec import Recorder
         try:
             scn, cs = load_source(job["src"], wd)
@@ -161,6 +162,8 @@ def run_job(job):
             res["machinery"] = "scenario outside the numeric domain"
             return res
         tla = render_scenario_tla(cs)
+        if job.get("decoy", True) and len(cs["hosts"]) <= 20:
+            corpus.run_decoys(cs)
         trace = os.path.join(wd, "trace.ndjson")
         rec = Recorder(trace, len(cs["hosts"]))
         if job.get("exhaustive"):
@@ -178,14 +181,14 @@ def run_job(job):
                 return res
             info = replay.replay(cs, scn, graph, rec, modes=job.get("modes", replay.DEFAULT_MODES),
                                  foreign=job.get("foreign", True), max_states=job.get("max_states"),
-                                 extras=job.get("extras", True))
+                                 extras=job.get("extras", True), readable=not corpus.names_clash(cs))
             res["edges_replayed"] = info["edges"]
             res["graph_states"] = info["states"]
             res["spec_gates"] = {"%s/%s/%s" % k: v for k, v in info["gates"].items()}
         if job.get("random_steps"):
             drive_random(cs, scn, rec, job.get("seed", 0), job["random_steps"],
                          job.get("modes", replay.DEFAULT_MODES), lockstep=job.get("lockstep", False),
-                         extras=job.get("extras", True))
+                         extras=job.get("extras", True), readable=not corpus.names_clash(cs))
         rec.close()
         res["counts"] = dict(rec.counts)
         res["events"] = rec.i
